@@ -507,6 +507,20 @@ func regC16(add addFn, p pFn) {
 		Bound: "as enctype-list with two blank bytes between the names"})
 	add(&Instance{Property: "C16", Name: "invalid-files", Entry: "config.VH_C16_InvalidFiles", Reach: []string{"rejected"}, TimeoutS: 900,
 		Bound: "4 kinds of structural error (relation without '=' in libdefaults / domain_realm; unmatched closing brace, opening brace without '=' in realms) with an arbitrary 2-letter word, optionally preceded and followed by an unknown section"})
+	for _, tl := range []int{3, 10, 12, 14} {
+		narrow := 1
+		b := "each byte x or the byte a realm-level tag of that length has there"
+		if tl == 3 {
+			narrow = 0
+			b = "EVERY string over a-z and _"
+		}
+		add(&Instance{Property: "C16", Name: "realm-nested-block-t" + itoa(tl), Entry: "config.VH_C16_RealmNestedBlock", Params: p("taglen", tl, "narrow", narrow), Reach: []string{"done"}, TimeoutS: 600,
+			Bound: "a realm body with one nested block (2-letter name) holding one relation whose tag has " + itoa(tl) + " bytes (" + b + "; 3: kdc; 10: master_kdc; 12: admin_server; 14: kpasswd_server, default_domain), between two kdc relations"})
+		if tl != 3 {
+			add(&Instance{Property: "C16", Name: "realm-nested-block-all-t" + itoa(tl), Entry: "config.VH_C16_RealmNestedBlock", Params: p("taglen", tl, "narrow", 0), Tier: "thorough", Reach: []string{"done"}, TimeoutS: 3000,
+				Bound: "as realm-nested-block-t" + itoa(tl) + " with EVERY tag of that length over a-z and _"})
+		}
+	}
 	for _, ws := range []int{0, 1} {
 		add(&Instance{Property: "C16", Name: "sections-s2-ws" + itoa(ws), Entry: "config.VH_C16_Sections", Params: p("sections", 2, "ws", ws, "lead", ws), Reach: []string{"loaded"}, TimeoutS: 600,
 			Bound: "files of 2 sections in every order (libdefaults/realms/domain_realm at most once, unknown sections named by 1-2 letters), each empty or with one relation, " + itoa(ws) + " blank byte(s) around each header, a 4-byte blank-or-comment line (arbitrary printable text) after every header and relation; regexp matching modelled by NFA simulation of the compiled pattern over ASCII text"})
